@@ -15,7 +15,19 @@ import (
 func (g *gen) bigValue() *big.Int {
 	one := big.NewInt(1)
 	var v *big.Int
-	switch g.r.Intn(12) {
+	switch g.r.Intn(15) {
+	case 12, 13: // k*k, k*k-1, k*k+1 with k*k just below a representation boundary (2^53: float64 exactness;
+		// 2^64, 2^128: inline words) - where a root computed through another number type goes wrong first
+		top := uint(g.pick(53, 53, 64, 128, 106))
+		lim := new(big.Int).Sqrt(new(big.Int).Lsh(one, top)) // floor(sqrt(2^top))
+		k := new(big.Int).Sub(lim, new(big.Int).Rand(g.r, new(big.Int).Rsh(lim, 2)))
+		v = new(big.Int).Mul(k, k)
+		v.Add(v, big.NewInt(g.pick(0, -1, -1, 1)))
+		return v
+	case 14: // around 2^53 and 2^24 (float64 / float32 exactness)
+		v = new(big.Int).Lsh(one, uint(g.pick(24, 52, 53, 54)))
+		v.Add(v, big.NewInt(int64(g.r.Intn(5)-2)))
+		return v
 	case 0:
 		v = big.NewInt(int64(g.r.Intn(5) - 2))
 	case 1:
